@@ -3,7 +3,7 @@ CONSTANTS
   MaxLeaves = 3
   MaxArity = 3
   UnaryUpTo = 2
-  Pats = {2}
+  Pats = {3}
   Depth = 3
 INVARIANT L_Domain
 INVARIANT L_ReadOnly
